@@ -213,7 +213,7 @@ def fxp_like(x, val=None):
         New Fxp object like `x`.
 
     '''
-    y = x.copy()
+    y = x.deepcopy()    # a new object: configuration and status are not shared with `x`
     return y(val)
 
 def fxp_sum(x, sizes='best_sizes', axis=None, dtype=None, out=None, vdtype=None):
